@@ -58,9 +58,12 @@ def cases(tier):
                 cs.append(F.viaP(c1, c2, end=e3 + 1, order=order))
             cs.append(F.viaP2(c1, c2, [], end=e3))
             cs.append(F.viaP2(c1, [], c2, end=e3, order=("B", "P", "A")))
+            cs.append(F.viaPdup(c1, [], c2, end=e3, order=("B", "P", "A")))
         cs.append(F.viaPP(c1, [], [], end=e3))
         cs.append(F.viaPP([], c1 if F.chain_ok(c1, True) else [], [], end=e3, order=("B", "Q", "P", "A")))
         cs.append(F.diamondP(end=e3, ch=c1))
+    for order in (("A", "P", "B", "C"), ("C", "B", "P", "A"), ("A", "P", "C", "B")):
+        cs.append(F.shareP(end=e3, order=order))
     # delay-resolved rings (delay >= sum of the largest steps): the guarantee must hold throughout
     for mat in ([F.TOK["F4"]], [F.TOK["F2"], F.TOK["F2"]], [F.TOK["F1"], F.TOK["S"], ["F", 3]], [F.TOK["U"]], [["F", 4], F.TOK["S"]]):
         for k in (0, 1):
